@@ -632,6 +632,8 @@ def m0_slices():
     m.method("Sl", "ret_str", None, [("x", Str("unval8"))], Str("unval8"), ret_from=PassThrough("x", sub=True))
     m.method("Sl", "ret_str16", None, [("x", Str("utf16"))], Str("utf16"), ret_from=PassThrough("x"))
     m.method("Sl", "views", None, [("v", StructT("Views", borrowed=True))], StructT("Views", borrowed=True), ret_from=PassThrough("v"))
+    m.add(StructDef("Refs", [("o", OpaqueRef("Sl")), ("n", P("u8")), ("p", OpaqueRef("Sl", optional=True)), ("sl", Slice(P("i32"), "ref", "diplomat"))]))
+    m.method("Sl", "refs", None, [("r", StructT("Refs", borrowed=True))], StructT("Refs", borrowed=True), ret_from=PassThrough("r"))
     m.method("Sl", "views2", None, [("v", StructT("Views2", borrowed=True))], StructT("Views2", borrowed=True), ret_from=PassThrough("v"))
     m.method("Sl", "opt_slice", None, [("x", Opt(Slice(P("u8"), "ref"), "std")), ("y", Opt(Str("utf8"), "std"))], Opt(P("u8"), "std"))
     m.method("Sl", "opt_own", None, [("x", Opt(Slice(P("u8"), "box"), "std")), ("k", P("u8"))], None)
